@@ -47,7 +47,9 @@ def combo(rnd, n):
 
 
 def inter(rnd, n, scr, empty):
-    lookup = {} if empty else {(c, d): rnd.uniform(0.2, 0.9) for c in range(scr.n_unique_samples) for d in range(scr.n_unique_treatments)}
+    keys = [] if empty else [(c, d) for c in range(scr.n_unique_samples) for d in range(scr.n_unique_treatments)]
+    rnd.shuffle(keys)  # the table is filled batch by batch in the order plates are observed, not in sorted key order
+    lookup = {k: rnd.uniform(0.2, 0.9) for k in keys}
     return [SparseDrugComboInteractionMCMCSample(W=awkward(rnd, (3, 4)), V2=awkward(rnd, (6, 4)), precision=2.0 / 3.0 + i, single_effect_lookup=lookup) for i in range(n)]
 
 
